@@ -137,15 +137,20 @@ class Recorder:
                 e[key] = _cp(getattr(part, attr))
             except falcon.errors.MultipartParseError:
                 e[key] = [-3]
-        ctype = part.content_type
-        e['ctype'] = list(ctype.encode('latin-1'))
+        try:
+            ctype = part.content_type
+            e['ctype'] = list(ctype.encode('latin-1'))
+        except falcon.errors.MultipartParseError:
+            ctype, e['ctype'] = None, [-3]
         return ctype
 
-    def applicable(self, op, ctype, touched):
+    def applicable(self, op, ctype, touched, toolarge):
         if self.script.literal:
             return True
-        if op[0] == 'get_text':
-            return ctype in KNOWN_TYPES
+        if op[0] in ('get_text', 'get_data'):
+            return True
+        if toolarge:
+            return False        # after "body part is too large" only the buffered accessors are asked again
         if op[0] == 'get_media':
             return self.json_ok and ctype == 'application/json' and not touched
         return True
@@ -170,9 +175,9 @@ class Recorder:
                 return
             ops = self.script.ops[i] if i < len(self.script.ops) else []
             i += 1
-            touched = False
+            touched = toolarge = False
             for op in ops:
-                if not self.applicable(op, ctype, touched):
+                if not self.applicable(op, ctype, touched, toolarge):
                     continue
                 touched = True
                 name = op[0]
@@ -210,8 +215,9 @@ class Recorder:
                 if e['out'] in ('exc', 'hang'):
                     self.stop = 'exc'
                     return
-                if e['out'] == 'error':
-                    break                      # the part is not touched again
+                toolarge = toolarge or (e['out'] == 'error' and e['why'] == 'size')
+                if name == 'get_text' and ctype not in KNOWN_TYPES and not self.script.literal:
+                    break                      # outcome left open by the specification: the part is not touched again
         return
 
     async def run_async(self, form):
@@ -234,9 +240,9 @@ class Recorder:
                 return
             ops = self.script.ops[i] if i < len(self.script.ops) else []
             i += 1
-            touched = False
+            touched = toolarge = False
             for op in ops:
-                if not self.applicable(op, ctype, touched):
+                if not self.applicable(op, ctype, touched, toolarge):
                     continue
                 touched = True
                 name = op[0]
@@ -283,7 +289,8 @@ class Recorder:
                 if e['out'] in ('exc', 'hang'):
                     self.stop = 'exc'
                     return
-                if e['out'] == 'error':
+                toolarge = toolarge or (e['out'] == 'error' and e['why'] == 'size')
+                if name == 'get_text' and ctype not in KNOWN_TYPES and not self.script.literal:
                     break
         return
 
@@ -555,6 +562,8 @@ def random_script(rng, form, b, maxops=3):
                 part.append(('get_text',))
             else:
                 part.append(('get_media',))
+        if part and part[-1][0] in ('get_data', 'get_text') and rng.random() < 0.4:
+            part.append((rng.choice(('get_data', 'get_text')),))       # ask again (memo / sticky size failure)
         ops.append(part)
     mx = None
     if rng.random() < 0.08:
@@ -564,13 +573,24 @@ def random_script(rng, form, b, maxops=3):
 
 def random_edit(rng, body, b):
     kind = rng.choice(('del', 'ins', 'sub'))
-    vals = b'X-\r\n: ;"=b' + b[:1]
+    vals = b'X-\r\n: ;"=b\xe9\xff\x80\xc3' + b[:1]
     n = len(body)
     if n == 0:
         kind = 'ins'
-    # prefer positions near structure (dashes, CR, LF) half of the time
-    hot = [i for i, x in enumerate(body) if x in b'-\r\n'] or list(range(n))
-    i = rng.choice(hot) if rng.random() < 0.6 and hot else rng.randrange(n + (1 if kind == 'ins' else 0))
+    # prefer positions near structure (dashes, CR, LF), inside non-ASCII text and inside header values
+    t = rng.random()
+    hot = []
+    if t < 0.45:
+        hot = [i for i, x in enumerate(body) if x in b'-\r\n']
+    elif t < 0.62:
+        hot = [i for i, x in enumerate(body) if x >= 128]
+    elif t < 0.80:
+        for key in (b'name="', b"filename*=UTF-8''", b'filename="', b'ontent-Type: ', b'ontent-type: '):
+            j = body.find(key)
+            while j >= 0:
+                hot += list(range(j + len(key), min(n, j + len(key) + 12)))
+                j = body.find(key, j + 1)
+    i = rng.choice(hot) if hot else rng.randrange(n + (1 if kind == 'ins' else 0))
     v = rng.choice(vals)
     if kind == 'del':
         return body[:i] + body[i + 1:], ('del', i)
@@ -671,6 +691,9 @@ def compare(want, got, edited):
                         return cl, i, 'spec %r, code %r' % (w[key], g[key])
             if w['out'] == 'error' and w['why'] != g['why']:
                 return 'D:why', i, 'spec %s, code %s' % (w['why'], g['why'])
+        elif w['out'] == 'open':
+            if g['out'] not in ('ok', 'none', 'error'):
+                return 'P:exception', i, 'get_text: %s %s' % (g['out'], g['why'])
         else:
             if (w['out'] == 'error') != (g['out'] == 'error'):
                 why = w['why'] if w['out'] == 'error' else g['why']
@@ -689,7 +712,7 @@ def compare(want, got, edited):
 # ------------------------------------------------------------------------------------------------
 
 X_ACTIONS = ['XAddPart', 'XSeal', 'XCorrupt', 'XServe', 'XFirst', 'XSkip', 'XNextAfterPartial', 'XNextAfterFull',
-             'XReadSome', 'XReadAll', 'XExhaust', 'XGetData', 'XGetText', 'XGetMedia', 'XReadUntil']
+             'XReadSome', 'XReadAll', 'XExhaust', 'XGetData', 'XGetText', 'XGetTextOpen', 'XGetMedia', 'XReadUntil']
 
 
 def action_coverage(ctx, module, cfg, timeout=300):
@@ -728,8 +751,9 @@ def nontrivial(form, lim, script_ops):
     return False
 
 
-def expected_status(want):
-    return 400 if any(e['out'] == 'error' for e in want) else 200
+def expected_status(want, got):
+    """400 iff some call raised the parse error (the application re-raises the first one)."""
+    return 400 if any(w['out'] == 'error' or (w['out'] == 'open' and g['out'] == 'error') for w, g in zip(want, got)) else 200
 
 
 def run(ctx):
@@ -741,8 +765,7 @@ def run(ctx):
                         "CPython str.encode('utf-8') and json.dumps for projecting text / media",
                         'engine/bytesrc.py byte sources, engine/drivers.py raw WSGI/ASGI drivers']
     ctx.assumptions = ['names and plain filenames contain no double quote or backslash; charset is UTF-8',
-                       'a part is not touched again after one of its buffered accessors raised',
-                       'damaged bodies keep 7-bit header blocks (a damaged non-UTF-8 header value is outside the property)',
+                       'after "body part is too large" only get_data()/get_text() are asked again on that part',
                        'the request carries a correct Content-Length',
                        'Cython twin falcon/cyutil/reader.pyx: stale-or-absent, not checked']
     ctx.extra['bounds'] = {
@@ -822,9 +845,9 @@ def run(ctx):
             bad = compare(want, got, b['edited'])
             if bad is None and stack in ('wsgi', 'asgi') and len(got) > len(want):
                 st = got[len(want)]
-                if st['op'] == 'status' and (st['out'] == 'exc' or st['code'] != expected_status(want)):
+                if st['op'] == 'status' and (st['out'] == 'exc' or st['code'] != expected_status(want, got)):
                     bad = ('P:exception' if st['out'] == 'exc' else 'P:status', len(want),
-                           'status %s %s, expected %d' % (st['code'], st['why'], expected_status(want)))
+                           'status %s %s, expected %d' % (st['code'], st['why'], expected_status(want, got)))
             if bad:
                 case['observed'] = got
                 if bad[0].startswith('D:'):
@@ -843,7 +866,7 @@ def run(ctx):
     for i in range(ncases):
         bnd = random_boundary(rng)
         damaged = rng.random() < 0.3
-        form = random_form(rng, bnd, rng.choice((1, 2, 3, 3, 4, 6)), ascii_headers=damaged)
+        form = random_form(rng, bnd, rng.choice((1, 2, 3, 3, 4, 6)))
         env = random_env(rng, form, bnd)
         lim = random_limits(rng, form)
         body = encode(form, env)
